@@ -47,26 +47,32 @@ pub struct Args {
     pub labels: Vec<String>,
     #[serde(with = "compat::fbits::list")]
     pub buckets: Vec<f64>,
+    /// variable label names already set on the options value (vector kinds, options form): the vector
+    /// constructor replaces them by the names given in the call, and so must the macro
+    #[serde(default)]
+    pub preset_vars: Vec<String>,
 }
 impl Args {
     /// opts!(name, help [, labels!{..}] [, labels!{..}])
     pub fn opts(&self) -> Opts {
         let c = &self.consts;
-        match c.len() {
+        let o = match c.len() {
             0 => opts!(self.name.clone(), self.help.clone()),
             1 => opts!(self.name.clone(), self.help.clone(), labels! { c[0].0.as_str() => c[0].1.as_str() },),
             _ => opts!(self.name.clone(), self.help.clone(), labels! { c[0].0.as_str() => c[0].1.as_str(), }, labels! { c[1].0.as_str() => c[1].1.as_str() }),
-        }
+        };
+        self.preset_vars.iter().fold(o, |o, v| o.variable_label(v.clone()))
     }
     /// histogram_opts!(name, help [, buckets [, labels!{..}]])
     pub fn hopts(&self) -> HistogramOpts {
         let c = &self.consts;
-        match c.len() {
+        let o = match c.len() {
             0 if self.buckets == DEFAULT_BUCKETS.to_vec() => histogram_opts!(self.name.clone(), self.help.clone(),),
             0 => histogram_opts!(self.name.clone(), self.help.clone(), self.buckets.clone()),
             1 => histogram_opts!(self.name.clone(), self.help.clone(), self.buckets.clone(), labels! { c[0].0.clone() => c[0].1.clone() }),
             _ => histogram_opts!(self.name.clone(), self.help.clone(), self.buckets.clone(), labels! { c[0].0.clone() => c[0].1.clone(), c[1].0.clone() => c[1].1.clone(), },),
-        }
+        };
+        self.preset_vars.iter().fold(o, |o, v| o.variable_label(v.clone()))
     }
 }
 
@@ -130,7 +136,10 @@ fn explicit(kind: &MKind, form: &Form, a: &Args, reg: &Registry) -> std::result:
             consts.insert(k.clone(), v.clone());
         }
     }
-    let opts = Opts::new(a.name.clone(), a.help.clone()).const_labels(consts);
+    let mut opts = Opts::new(a.name.clone(), a.help.clone()).const_labels(consts);
+    if *form == Form::Opts {
+        opts = opts.variable_labels(a.preset_vars.clone());
+    }
     let buckets = match form {
         Form::NameHelp => DEFAULT_BUCKETS.to_vec(),
         _ => a.buckets.clone(),
@@ -205,13 +214,22 @@ fn gen_plan(seed: u64) -> MacroPlan {
                 4 => vec![f64::INFINITY],
                 _ => vec![0.25, f64::INFINITY],
             };
+            let preset_vars: Vec<String> = if kind.is_vec() && form == Form::Opts && r.chance(20) {
+                match r.below(3) {
+                    0 => vec!["zz_preset".to_string()],
+                    1 => vec!["l1".to_string()],
+                    _ => vec!["zz_a".to_string(), "zz_b".to_string()],
+                }
+            } else {
+                vec![]
+            };
             k += 1;
             calls.push(MacroCall {
                 kind,
                 form,
                 with_registry: r.chance(50),
                 trailing: r.chance(50),
-                args: Args { name: format!("c20_{:x}_{}_{}", tag, t, k), help: r.pick(&["help", "h é \"q\""]).to_string(), consts, labels, buckets },
+                args: Args { name: format!("c20_{:x}_{}_{}", tag, t, k), help: r.pick(&["help", "h é \"q\""]).to_string(), consts, labels, buckets, preset_vars },
                 again: r.chance(30),
                 bump: 1 + r.below(100) as u32,
             });
